@@ -8,7 +8,12 @@ against the model, on corpus + generated molecules, their renumberings and inser
 the writer model's start atom / first child and, on small molecules, whole canonical string and written order.
 Search (real code only, independent of the model): renumber / rebuild in another insertion order through the public
 API / re-spell with chython's random writer and with RDKit -> canonical string, ==, hash must agree; the two documented
-gap classes are recognised by an independent symmetry oracle (own colour refinement, cross-checked with RDKit ranks)."""
+gap classes are recognised by an independent symmetry oracle (own colour refinement, cross-checked with RDKit ranks).
+Round 4: _morgan / atoms_order / int_adjacency / Element.__hash__ / Bond.__hash__ (tools/gen_morganbody.py), the weight-dependent sort
+keys of _smiles (tools/gen_smileskeys.py) and the stereo block of _format_atom (tools/gen_atomstereo.py) are TRANSLATED from the source on
+every run and proved equal to the models (props C01_*_translated_source); the translated Morgan functions are also evaluated against the
+implementation (cases c01g).  Search: written-string oracles (canonical fixed point, a spelling starting at every labelled centre, RDKit
+as judge of input vs written string) and a generated family of centres with an explicit hydrogen atom."""
 import itertools
 import random
 
@@ -1154,6 +1159,29 @@ Definition h_ok (l : list Z) (v : Z) : bool := (hash63 l =? v) && (hash_ztuple l
 '''
 
 
+# the functions TRANSLATED from the source (coq/gen/MorganBody.v) evaluated directly against the implementation; a cases file of its
+# own, so that a source the translator refuses (no generated file) does not take the model correspondence down with it
+COQ_EXTRA_GEN = '''From Model Require Import PyHash Graph Morgan MorganFast.
+From Gen Require Import MorganBody.
+Import ListNotations.
+Open Scope Z_scope.
+Definition gmg_ok (atoms : labels) (adj : iadj) (exp_labels exp : pyres labels) : bool :=
+  res_eqb (g_morgan hash63 atoms adj) exp && res_eqb (g_morgan_labels hash63 atoms adj) exp_labels.
+(* the translated Morgan.atoms_order (with the translated Element.__hash__, Bond.__hash__, int_adjacency) *)
+Definition gao_ok (rings : list Z) (g : mol) (exp : pyres labels) : bool :=
+  res_eqb (g_atoms_order hash63 (fun n => zmem n rings) g) exp.
+'''
+
+
+def run_cases(name, imports, cases, **kw):
+    """coqcases.run_cases; when a shard was killed from outside (the OOM killer of a shared machine prints `Killed`) the evaluation is
+    repeated once: a verdict of the model is reproducible, a kill is not"""
+    ok, failing, log = coqcases.run_cases(name, imports, cases, **kw)
+    if not ok and 'Killed' in (log or ''):
+        ok, failing, log = coqcases.run_cases(name, imports, cases, **kw)
+    return ok, failing, log
+
+
 def zmap(d):
     return lst([tup(zraw(k), zraw(v)) for k, v in d.items()])
 
@@ -1493,11 +1521,22 @@ def correspondence(ck):
     rng = random.Random(f'{ck.seed}:c01-corr')
     quick = ck.tier == 'quick'
     cases, meta = [], []
+    gcases, gmeta = [], []
     ucases, umeta = [], []
     suspects = []
     n_writer = 0
     # labelled centres with an explicit hydrogen atom come first: the whole-string writer cases below are capped
-    hc = explicit_h_centres(random.Random(f'{ck.seed}:c01-hcentres-corr'), 22 if quick else 80)
+    hc_all = explicit_h_centres(random.Random(f'{ck.seed}:c01-hcentres-corr'), 70 if quick else 250)
+    hc_first = []      # members whose canonical string STARTS at the labelled centre (the first-atom rule of _format_atom is in reach)
+    for x in hc_all:
+        try:
+            mx = smiles(x)
+            if mx._atoms[mx.smiles_atoms_order[0]].stereo is not None:
+                hc_first.append(x)
+        except Exception:
+            pass
+    hc_first = hc_first[:8 if quick else 40]
+    hc = hc_first + [x for x in hc_all if x not in hc_first][:14 if quick else 60]
     pool = hc + SPECIAL + GAP_EXAMPLES + LONG + ALLENES[:4] + COORD + CHARGE_TIE + corpus.sample(corpus.lipo(), 100 if quick else 500, ck.seed, 'c01-corr')
     mols = []
     for smi in pool:
@@ -1512,6 +1551,8 @@ def correspondence(ck):
         for c, mt in raw_dict_cases(spy, rng, 400 if quick else 2500):
             cases.append(c)
             meta.append(mt)
+            gcases.append('g' + c)        # mg_ok ... -> gmg_ok ...
+            gmeta.append(mt)
             ck.case(mt, nontrivial=mt[4].startswith('Ok') and len(mt[2]) > 2)
             ck.count(f'corr:raw:{mt[1]}:{"Ok" if mt[4].startswith("Ok") else mt[4]}')
         for smi, m in [('', MoleculeContainer())] + mols:
@@ -1530,6 +1571,10 @@ def correspondence(ck):
                 c, ao = mol_case(spy, v, with_labels=(i == 1))
                 cases.append(c)
                 meta.append(('mol', how, smi, dict(ao)))
+                if i == 0 and len(v) <= 30:
+                    gcases.append(f'gao_ok {lst([n for n, a in v.atoms() if a.in_ring], zraw)} {mol_term(v)} (Ok {zmap(ao)})')
+                    gmeta.append(('mol', 'translated-atoms_order', smi, dict(ao)))
+                    ck.count('corr:mol:translated-source')
                 ck.case(('corr', smi, how, tuple(v._atoms)), nontrivial=len(v) > 2)
                 ck.count(f'corr:mol:{how}')
                 cls = sorted(ao.values())
@@ -1662,13 +1707,22 @@ def correspondence(ck):
         meta.append(('hash', t, hash(t)))
         ck.case(('hash', t))
         ck.count('corr:hash-tuple')
-    ok, failing, log = coqcases.run_cases('c01', 'PyHash', cases, extra=COQ_EXTRA, shard=100)
+    ok, failing, log = run_cases('c01', 'PyHash', cases, extra=COQ_EXTRA, shard=100)
     ck.oblige('correspondence: hash(atom), int_adjacency, _morgan (labels of the last round, result, KeyError), atoms_order, _chiral_morgan '
               '(weights + every _morgan input), start atom and first child of the writer == Coq model (exact ints, CPython tuple hash model)', ok and not failing, 'correspondence', log or repr([meta[i] for i in failing[:5]]))
     ck.extra['correspondence_cases'] = len(cases)
+    gok, gfail, glog = run_cases('c01g', 'PyHash', gcases, extra=COQ_EXTRA_GEN, shard=100)
+    ck.oblige('correspondence: the functions translated from the source (g_morgan, g_morgan_labels, g_atoms_order of coq/gen/MorganBody.v) == '
+              'the implementation on raw dicts (malformed included) and molecules', gok and not gfail, 'correspondence', glog or repr([gmeta[i] for i in gfail[:5]]))
+    ck.extra['translated_source_cases'] = len(gcases)
+    if not (gok and not gfail):
+        failing = list(failing) + [len(meta) + i for i in gfail]
+        meta = meta + gmeta
+        ok = ok and gok
+        log = (log or '') + (glog or '')
     # how often the hypothesis of C01_chiral_morgan_order_independent holds on real molecules (uniform run of the model == no
     # flip-half group in the real run); a mismatch is a coverage statement, not a failure of the code
-    uok, ufail, ulog = coqcases.run_cases('c01u', 'PyHash', ucases, extra=COQ_EXTRA, shard=100)
+    uok, ufail, ulog = run_cases('c01u', 'PyHash', ucases, extra=COQ_EXTRA, shard=100)
     if uok:
         fs = set(ufail)
         for i, (smi, how, flip_free, ncalls) in enumerate(umeta):
@@ -1713,12 +1767,15 @@ def run(ck):
                    'CachedMethods shim harness/boot.py', 'CPython 3.12.1', 'Coq primitive 63-bit integers under vm_compute (model/MorganFast.v)',
                    'RDKit 2026.3 and the own colour-refinement oracle (search only)']
     ck.assumptions += [
-        'theorems are about coq/model/Morgan.v (hand-written model of _morgan / atoms_order / Element.__hash__ / Bond.__hash__), for every '
-        'hash function h; tie = exact correspondence with h := CPython tuple hash (Uint63 implementation hash63, also compared with '
+        'theorems are about coq/model/Morgan.v (model of _morgan / atoms_order / Element.__hash__ / Bond.__hash__), for every hash function h; '
+        'tie = (1) the model is proved equal to coq/gen/MorganBody.v, the statement-by-statement translation of the source regenerated on every '
+        'run (tools/gen_morganbody.py; what the Python constructs of the fragment mean is the fixed prelude of that file), (2) exact '
+        'correspondence of model AND translated function with h := CPython tuple hash (Uint63 implementation hash63, also compared with '
         'PyHash.hash_ztuple)',
         'ring membership (atom.in_ring) is an input of the model (ring perception is C06)',
         'writer theorems are about coq/model/Writer.v (C02 ties it at volume; here its start atom, first child and, on small molecules, '
-        'the whole canonical string / order are re-tied): invariance of the written text under remap() is proved for injective weights when '
+        'the whole canonical string / order are re-tied; its sort keys key_start / key_child_at are proved to be the keys translated from '
+        'the source of _smiles, tools/gen_smileskeys.py): invariance of the written text under remap() is proved for injective weights when '
         'no stereo mark is written, and conditionally on the agreement of _format_atom/_format_bond otherwise; insertion-order changes, weight '
         'ties and the stereo refinement _chiral_morgan/__differentiation are covered by the search only',
         'canonical string / hash of str are opaque in the eq/hash theorems']
@@ -1729,13 +1786,15 @@ def run(ck):
         '2 atoms. search: each molecule renumbered x2, rebuilt through add_atom/add_bond/add_*_stereo in another order (Kekule form and '
         'after thiele), re-spelled by format(m,"r") x2 and by RDKit (aromatic and Kekule spelling, kekule+thiele on both sides) -> str, ==, '
         'hash; long chains / macrocycles / oligomers (36-90 atoms) and stereo allenes (12 random spellings each, all spellings of one '
-        'configuration by the OpenSMILES extended-tetrahedral rule judged by RDKit on the tetrahedral analogue) as well; atoms_order against an own exact colour refinement; non-trivial = more than one atom. Members of the documented gap classes '
+        'configuration by the OpenSMILES extended-tetrahedral rule judged by RDKit on the tetrahedral analogue) and a generated family of labelled centres with an explicit hydrogen atom as well; '
+        'written-string oracles on every molecule: smiles(str(m)) == m, a spelling that STARTS at each labelled centre (writer driven by weights that put it first) reads back as m, '
+        'RDKit judges input vs written strings (constitution + number of labels equal, canonical isomeric SMILES and chirality-aware matching both differ -> alarm); atoms_order against an own exact colour refinement; non-trivial = more than one atom. Members of the documented gap classes '
         '(own symmetry oracle) are judged on the stereo-free string only; the bond-order-tie class (annulenes with localised bonds, fixed by 2e3e6bb) is judged in full.')
     import time
     t0 = time.time()
     # gen/SmilesTables.v (C02's translator, which also guards the READER's atom regex) is used as C02's check regenerates it: no C01
     # theorem depends on the content of a table, and the writer tables are tied here by the whole-string writer correspondence
-    proved = common.standard_proof_steps(ck, translators=['elements', 'stereo', 'morganconsts'], extra_targets=['model/MorganFast.vo', 'model/ChiralMorgan.vo'])
+    proved = common.standard_proof_steps(ck, translators=['elements', 'stereo', 'morganconsts', 'morganbody', 'smileskeys', 'atomstereo'], extra_targets=['model/MorganFast.vo', 'model/ChiralMorgan.vo'])
     t1 = time.time()
     tied, bad, log, suspects = correspondence(ck)
     t2 = time.time()
